@@ -8,4 +8,4 @@ for id in C01 C02 C03 C04 C05 C06 C07 C08 C09 C10 C11 C12 C13 C14 C15 C16 C17 C1
   out=$(./check $id quick 2>&1); rc=$?
   if [ $rc -ne 0 ]; then echo "ALARM $id rc=$rc"; echo "$out" | grep -E "signature|detail|MACHINERY|^error" | head -6 | cut -c1-300; else echo "quiet $id"; fi
 done
-git -C /repo checkout -- .
+git -C /repo checkout -- . ; git -C /repo clean -fdq
